@@ -4972,7 +4972,7 @@ func (t *Terminal) Loop() error {
 				return nil
 			}
 		}
-		previousInput := t.input
+		previousInput := copySlice(t.input)
 		previousCx := t.cx
 		t.lastKey = event.KeyName()
 		events := []util.EventType{}
